@@ -19,7 +19,8 @@ FILES = [
     "qucumber/rbm/purification_rbm.py",
     "qucumber/utils/unitaries.py",
 ]
-REQUIRED_THEOREMS = ["C11_roundtrip", "C11_roundtrip_autoload", "C11_reserved", "C11_no_side_effect", "C11_idempotent", "C11_history"]
+REQUIRED_THEOREMS = ["C11_roundtrip", "C11_roundtrip_autoload", "C11_reserved", "C11_no_side_effect", "C11_idempotent", "C11_history",
+                     "C11_autoload_stream", "C11_load_stream", "C11_save_stream", "C11_history_streams", "C11_load_replaces_dict", "C11_saver_path"]
 EXTRA_TRUSTED = [
     "torch.save / torch.load are a faithful map from the saved dict to the loaded dict (a file is a map of tokens in the model)",
     "tensor contents are identified by the hash of their bytes (tokens); storage identity by data_ptr() with all observed tensors kept alive",
@@ -178,6 +179,10 @@ def gen_plan(rng, maxlen):
             # load: prefer a file written by a state of the same architecture
             good = [p for p, a in saved.items() if a == states[slot]]
             p = rng.choice(good) if good and rng.random() < 0.7 else (rng.choice(sorted(saved)) if saved and rng.random() < 0.8 else path)
+            if kind != "pos" and rng.random() < 0.5:
+                # the receiver owns user letters the file (most likely) lacks: `load` REPLACES the dictionary, it does not merge
+                for nm in rng.choice([["Q"], ["R", "Q"], ["Q", "H"]]):
+                    plan.append({"t": "addUnitary", "slot": slot, "name": nm})
             plan.append({"t": "load", "slot": slot, "path": p})
             plan[-1].update(fobj_form(rng, False))
         elif r < 0.97:
@@ -349,6 +354,14 @@ class Hooks:
                         ok = ok and so.deep_equal(now["ud"], snap["ud"])
                     ctx.oracle("load yields the snapshot of the most recent successful save", ok, cs, detail={"err": err}, sig="load/roundtrip", theorem="C11_history")
                     ctx.count("load_compatible")
+                    if pre["snap"]["ud"] is not None and snap["ud"] is not None:
+                        extra = [k for k in pre["snap"]["ud"] if k not in snap["ud"]]
+                        if extra:
+                            ctx.count("load_into_receiver_whose_dictionary_has_letters_the_file_lacks")
+                            ctx.oracle("after load the receiver's unitary dictionary is EXACTLY the saved one: the letters only the receiver had are gone",
+                                       err is None and list((now["ud"] or {}).keys()) == list(snap["ud"].keys()), cs,
+                                       detail={"receiver_had": list(pre["snap"]["ud"].keys()), "file_has": list(snap["ud"].keys()), "receiver_has": list((now["ud"] or {}).keys())},
+                                       sig="load/dict-replaced", theorem="C11_load_replaces_dict")
                     if ls["dirty"]:
                         self.nontrivial = True
                 else:
@@ -476,6 +489,15 @@ def _fixed_cases():
         c(t="autoload", slot=0, kind="dens", path=1, fobj=True), c(t="mkMeta", mdslot=1, items=MD_KINDS["res_ud"]), c(t="save", slot=2, md=1, path=1, fobj=True),
         c(t="autoload", slot=1, kind="dens", path=1), c(t="load", slot=0, path=1, fobj=True)]}
 
+    # the receiver of a load owns user letters (Q, R, its own H) the file lacks: afterwards it has exactly the file's dictionary
+    yield {"tseed": 110, "plan": [
+        c(t="construct", slot=0, kind="cplx", nv=2, nh=3, na=None, ud=["H"]), c(t="write", slot=0, net="rbm_am"), c(t="addUnitary", slot=0, name="K"),
+        c(t="construct", slot=1, kind="cplx", nv=2, nh=3, na=None, ud=["H"]), c(t="addUnitary", slot=1, name="Q"), c(t="addUnitary", slot=1, name="R"),
+        c(t="save", slot=0, md=None, path=0), c(t="load", slot=1, path=0), c(t="save", slot=1, md=None, path=1),
+        c(t="construct", slot=2, kind="dens", nv=2, nh=3, na=1, ud={"raw": ["Z", "Q"]}), c(t="write", slot=2, net="rbm_ph"), c(t="save", slot=2, md=None, path=2),
+        c(t="construct", slot=0, kind="dens", nv=2, nh=3, na=1, ud=["R", "S"]), c(t="addUnitary", slot=0, name="Q"), c(t="load", slot=0, path=2, fobj=True),
+        c(t="autoload", slot=1, kind="dens", path=2)]}
+
     # file objects that do NOT start at position 0, for every state type: a stream of checkpoints (the same model saved, changed, saved
     # again into one open file; another model's checkpoint behind it), each checkpoint auto-loaded / loaded from its own start position;
     # a state saved behind a header the caller wrote first; real files and io.BytesIO
@@ -509,6 +531,407 @@ def gen_cases(ctx, thorough, ncases=None):
         yield {"plan": gen_plan(ctx.rng, maxlen), "tseed": ctx.rng.randrange(1, 2 ** 31), "rel": ctx.rng.random() < 0.25}
 
 
+# ---------------------------------------------------------------- extension round 2: the location forms inside the model
+# (lean/QV/Model/StoreLoc.lean; driver ops c11.srun, c11.saverPath)
+
+def gen_stream_case(rng):
+    """ONE open file object (io.BytesIO or a real file opened "w+b"), optionally a header the caller writes first, then 2-4 checkpoints of
+    different models appended back to back (different architectures AND - reusing an architecture - equal sizes; parameters always
+    different); after every save: autoload from the boundary of EVERY checkpoint written so far (those the installed torch cannot read at
+    all are skipped, counter), and a load of one of them into its (changed) source model"""
+    plan = [{"t": "openS", "sid": 0, "io": rng.choice(["bytes", "file"])}]
+    hdr = rng.choice([0, 0, 1, 14, 1000])
+    if hdr:
+        plan.append({"t": "writeHdr", "sid": 0, "n": hdr})
+    plan.append({"t": "mkMeta", "mdslot": 0, "items": MD_KINDS["flat"]})
+    plan.append({"t": "mkMeta", "mdslot": 1, "items": MD_KINDS[rng.choice(["res_am", "res_ud", "res_ph"])]})
+    archs, n = [], rng.randint(2, 4)
+    for k in range(n):
+        slot = k % 3
+        if archs and rng.random() < 0.5:
+            kind, nv, nh, na, ud = rng.choice(archs)       # same architecture as an earlier checkpoint: archives of EQUAL size
+        else:
+            kind = rng.choice(["pos", "cplx", "dens"])
+            nv, nh, na = rand_arch(rng, kind)
+            ud = None if kind == "pos" else rng.choice([None, ["H"], ["H", "S"], {"raw": ["Z", "X", "K"]}])
+        archs.append((kind, nv, nh, na, ud))
+        plan.append({"t": "construct", "slot": slot, "kind": kind, "nv": nv, "nh": nh, "na": na, "ud": ud})
+        for net in so.NETS[kind]:
+            plan.append({"t": "write", "slot": slot, "net": net})
+        if kind != "pos" and rng.random() < 0.4:
+            plan.append({"t": "addUnitary", "slot": slot, "name": rng.choice(["K", "Q"])})
+        if rng.random() < 0.25:
+            plan.append({"t": "saveS", "slot": slot, "md": 1, "sid": 0})   # mostly refused (reserved name): nothing appended
+        plan.append({"t": "saveS", "slot": slot, "md": rng.choice([None, 0]), "sid": 0, "ck": k})
+        for j in range(k + 1):
+            plan.append({"t": "autoloadS", "slot": 3 + (j % 2), "kind": archs[j][0], "sid": 0, "at": j})
+        j = rng.randrange(k + 1)
+        if archs[j][:4] == archs[k][:4]:
+            plan.append({"t": "write", "slot": slot, "net": "rbm_am"})
+            if kind != "pos":
+                plan.append({"t": "addUnitary", "slot": slot, "name": "R"})
+            plan.append({"t": "loadS", "slot": slot, "sid": 0, "at": j})
+    return so.add_forms(plan, rng)
+
+
+def fixed_stream_cases():
+    c = lambda **k: k  # noqa: E731
+    import random
+    for i, (io_kind, hdr) in enumerate((("bytes", 0), ("file", 14))):
+        plan = [c(t="openS", sid=0, io=io_kind)] + ([c(t="writeHdr", sid=0, n=hdr)] if hdr else []) + [
+            c(t="mkMeta", mdslot=0, items=MD_KINDS["flat"]),
+            c(t="construct", slot=0, kind="dens", nv=2, nh=3, na=1, ud=["H"]), c(t="write", slot=0, net="rbm_am"), c(t="write", slot=0, net="rbm_ph"),
+            c(t="saveS", slot=0, md=0, sid=0, ck=0), c(t="autoloadS", slot=3, kind="dens", sid=0, at=0),
+            c(t="write", slot=0, net="rbm_am"), c(t="addUnitary", slot=0, name="K"),
+            c(t="saveS", slot=0, md=0, sid=0, ck=1),                                                     # same model, trained on: equal size
+            c(t="autoloadS", slot=3, kind="dens", sid=0, at=0), c(t="autoloadS", slot=4, kind="dens", sid=0, at=1),
+            c(t="construct", slot=1, kind="pos", nv=3, nh=2, na=None, ud=None), c(t="write", slot=1, net="rbm_am"),
+            c(t="saveS", slot=1, md=None, sid=0, ck=2),                                                  # another model: another size
+            c(t="autoloadS", slot=3, kind="dens", sid=0, at=0), c(t="autoloadS", slot=4, kind="dens", sid=0, at=1), c(t="autoloadS", slot=3, kind="pos", sid=0, at=2),
+            c(t="write", slot=1, net="rbm_am"), c(t="loadS", slot=1, sid=0, at=2)]
+        yield {"kind": "stream", "tseed": 201 + i, "plan": so.add_forms(plan, random.Random(201 + i))}
+
+
+def stream_case(ctx, case):
+    """history with ONE open file object on the real code and on `QV.Store.srun` (driver op c11.srun)"""
+    import io
+
+    real = so.Real(case["tseed"])
+    real.ctx = ctx
+    fh = None
+    segs = []       # (start, end, snapshot of the saved state | None for the caller's header)
+    mops, checks = [], []   # model ops; (index of the model op, op, err, observation, extra)
+    nontrivial = False
+    cs0 = {"kind": "stream", "plan": case["plan"], "tseed": case["tseed"]}
+
+    def content():
+        pos = fh.tell()
+        fh.seek(0)
+        data = fh.read()
+        fh.seek(pos)
+        return data
+
+    try:
+        for op in case["plan"]:
+            t = op["t"]
+            cs = {**cs0, "op": op}
+            if t == "openS":
+                fh = io.BytesIO() if op["io"] == "bytes" else open(os.path.join(real.tmp, "stream.bin"), "w+b")
+                mops.append({"t": "openS", "sid": 0})
+                ctx.count("stream_object:" + op["io"])
+                continue
+            if t == "writeHdr":
+                fh.seek(0, 2)
+                a = fh.tell()
+                fh.write(real.header_bytes(op["n"]))
+                segs.append((a, fh.tell(), None))
+                mops += [{"t": "seekS", "sid": 0, "pos": a}, {"t": "writeHdr", "sid": 0, "n": op["n"]}]
+                ctx.count("stream_header_bytes:%d" % op["n"])
+                continue
+            if t == "saveS":
+                if op["slot"] not in real.models:
+                    continue
+                st = real.models[op["slot"]]
+                md = None if op["md"] is None else real.metas[op["md"]]
+                snap = so.snapshot_state(st)
+                before = content()
+                fh.seek(0, 2)
+                a = fh.tell()
+                err = None
+                try:
+                    st.save(fh, md)
+                except Exception as e:  # noqa: BLE001 - refused or not is what is compared
+                    err = type(e).__name__
+                after = content()
+                keys = list(md.keys()) if md else []
+                reserved = any(k in st.networks for k in keys) or (hasattr(st, "unitary_dict") and "unitary_dict" in keys)
+                ctx.oracle("save(open file object) refuses exactly the reserved names", (err is not None) == reserved, cs, detail={"err": err},
+                           sig="saveS/reserved", theorem="C11_save_stream")
+                ctx.oracle("save(open file object) leaves every byte in front of the object's position unchanged (a refused one: the whole object)",
+                           after[:a] == before[:a] and (err is None or after == before), cs, sig="saveS/prefix", theorem="C11_save_stream")
+                if err is None:
+                    segs.append((a, len(after), snap))
+                    ctx.count("stream_checkpoint_appended" + (":equal_size_as_an_earlier_one" if any(e - b == len(after) - a for b, e, sn in segs[:-1] if sn) else ""))
+                mops += [{"t": "seekS", "sid": 0, "pos": a}, {"t": "saveS", "slot": op["slot"], "md": op["md"], "sid": 0, "size": max(len(after) - a, 1)}]
+                checks.append((len(mops) - 1, op, err, real.observe(), {"segs": stream_obs(real, after, segs)}))
+                continue
+            if t in ("autoloadS", "loadS"):
+                cks = [sg for sg in segs if sg[2] is not None]
+                if op["at"] >= len(cks) or (t == "loadS" and op["slot"] not in real.models):
+                    continue
+                a, b, snap = cks[op["at"]]
+                data = content()
+                # which offsets can the INSTALLED torch read at all? (zip archives are located from the END of the file object: a checkpoint
+                # that is followed by further data is in general unreadable whatever the library does; equal-sized archives are read by accident)
+                try:
+                    probe = torch.load(_at(io.BytesIO(data), a), weights_only=False)
+                    want = torch.load(io.BytesIO(data[a:b]), weights_only=False)
+                    readable = so.deep_equal(dict(probe), dict(want))
+                except Exception:  # noqa: BLE001
+                    readable = False
+                last = b == len(data)
+                ctx.count(f"stream_boundary:{'last' if last else 'followed_by_data'}:{'readable' if readable else 'not_readable_by_installed_torch(skipped)'}")
+                if not readable:
+                    continue
+                if a != 0:
+                    ctx.count(f"{t}_from_nonzero_position")
+                if not last:
+                    ctx.count(f"{t}_from_a_checkpoint_followed_by_other_checkpoints")
+                fh.seek(a)
+                err = None
+                fm = so.af.Forms(op.get("af"), ctx)
+                mop = {"t": t, "slot": op["slot"], "sid": 0}
+                try:
+                    if t == "autoloadS":
+                        real.models[op["slot"]] = so.KINDS[op["kind"]].autoload(fh, gpu=fm.gpu())
+                        mop.update(kind=op["kind"], rand=[])
+                    else:
+                        real.models[op["slot"]].load(fh)
+                except Exception as e:  # noqa: BLE001
+                    err = type(e).__name__
+                    if t == "autoloadS":
+                        mop.update(kind=op["kind"], rand=[])
+                same = so.KINDS[op["kind"]].__name__ == snap["kind"] if t == "autoloadS" else True
+                if same:
+                    ok = err is None
+                    if ok:
+                        now = so.snapshot_state(real.models[op["slot"]])
+                        ok = so.deep_equal(now["nets"], snap["nets"]) and so.deep_equal(now["ud"], snap["ud"]) and (t == "loadS" or now["arch"] == snap["arch"])
+                    ctx.oracle(("autoload" if t == "autoloadS" else "load") + " through a file object positioned at the boundary of checkpoint k of a stream yields the state "
+                               "saved THERE (architecture, parameters, unitary dictionary)", ok, cs,
+                               detail={"err": err, "position": a, "checkpoint": op["at"], "of": len(cks)}, sig=f"{t}/stream-position",
+                               theorem="C11_autoload_stream" if t == "autoloadS" else "C11_load_stream")
+                    nontrivial = nontrivial or (ok and a != 0)
+                mops += [{"t": "seekS", "sid": 0, "pos": a}, mop]
+                checks.append((len(mops) - 1, op, err, real.observe(), None))
+                continue
+            if not so.admissible(real, op):
+                continue
+            mop, err = real.apply(op)
+            ctx.count(f"op={t}")
+            if mop is not None:
+                mops.append(mop)
+                checks.append((len(mops) - 1, op, err, real.observe(), None))
+        if ctx.driver is not None and mops:
+            res = ctx.driver.call("c11.srun", ops=mops)
+            for k, op, err, w, extra in checks:
+                mw = res[k]
+                cs = {**cs0, "op": op, "step": k}
+                t = op["t"]
+                lvl = "property" if t in ("saveS", "autoloadS", "loadS") and (err is None or t == "saveS") else "aux"
+                thm = {"saveS": "C11_save_stream, C11_history_streams", "autoloadS": "C11_autoload_stream, C11_history_streams",
+                       "loadS": "C11_load_stream, C11_load_replaces_dict, C11_history_streams"}.get(t, "model of the operation (by construction)")
+                ctx.point(f"{t}.refused", lvl, err is not None, mw["err"] is not None, cs, exact=True, sig=f"{t}/refused", theorem=thm)
+                if t == "loadS" and err is not None:
+                    continue
+                iw, cm = so.tuplify(so.canon_world(w)), so.tuplify(so.canon_world(mw))
+                for comp in ("states", "metas"):
+                    ctx.point(f"{t}.{comp}", lvl, iw[comp], cm[comp], cs, exact=True, sig=f"{t}/{comp}", theorem=thm)
+                if extra is not None:
+                    ms = (mw.get("streams") or {}).get("0", {"recs": []})
+                    ctx.point("saveS.stream", lvl, extra["segs"], so.tuplify([[r[0], r[1]] for r in ms["recs"]]), cs, exact=True,
+                              sig="saveS/stream-contents", theorem="C11_save_stream (the archive written at the position is the snapshot; everything in front is kept)")
+        ctx.case({"kind": "stream", "plan": case["plan"], "tseed": case["tseed"]}, nontrivial=nontrivial,
+                 sample={"stream_ops": [o["t"] for o in case["plan"]][:40], "tseed": case["tseed"]})
+        ctx.count("stream_cases_with_autoload_from_nonzero_position" if nontrivial else "stream_cases_without")
+    finally:
+        if fh is not None:
+            fh.close()
+        real.close()
+
+
+def _at(fh, pos):
+    fh.seek(pos)
+    return fh
+
+
+def stream_obs(real, data, segs):
+    """the harness's own reading of the file object: [size, null (header) | contents of the archive] per segment, in the model's vocabulary"""
+    import io
+
+    out = []
+    for a, b, snap in segs:
+        if snap is None:
+            out.append([b - a, None])
+        else:
+            try:
+                f = torch.load(io.BytesIO(data[a:b]), weights_only=False)
+                out.append([b - a, real.obs_dict(f)])
+            except Exception as e:  # noqa: BLE001
+                out.append([b - a, {"<unreadable>": type(e).__name__}])
+    return so.tuplify(out)
+
+
+# ---- where (and whether) ModelSaver writes
+FILE_NAMES = [
+    ("file{}.pt", ["file", {"auto": True}, ".pt"]), ("m{0}.pt", ["m", {"idx": 0}, ".pt"]), ("e{0}-{0}.pt", ["e", {"idx": 0}, "-", {"idx": 0}, ".pt"]),
+    ("const.pt", ["const.pt"]), ("e{}_{}.pt", ["e", {"auto": True}, "_", {"auto": True}, ".pt"]), ("e{epoch}.pt", ["e", {"named": "epoch"}, ".pt"]),
+    ("e{1}.pt", ["e", {"idx": 1}, ".pt"]),
+]
+FOLDERS = [["w"], ["a", "b"], ["..", "up"], [".", "w"], ["a", "..", "b"], ["exists"], ["exists", "sub"], ["blocked"], ["blocked", "x"], ["deep", "..", "..", "up2"]]
+
+
+def gen_saver_case(rng):
+    return {"kind": "saverpath", "tseed": rng.randrange(1, 2 ** 31), "folder": rng.choice(FOLDERS), "abs": rng.random() < 0.25,
+            "fname": rng.randrange(len(FILE_NAMES)) if rng.random() < 0.35 else rng.choice([0, 0, 1]), "period": rng.choice([1, 1, 2, 3]),
+            "si": rng.random() < 0.5, "meta": rng.choice(["none", "dict", "callable", "dict", "other_list", "other_str", "other_int"]),
+            "mo": rng.random() < 0.25, "mode": rng.choice(["events", "events", "fit"]), "cwds": [rng.choice(["c0", "c0/deep", "elsewhere", "elsewhere/x/y"]) for _ in range(6)],
+            "epochs": rng.choice([2, 3, 4])}
+
+
+def fixed_saver_cases():
+    base = {"kind": "saverpath", "abs": False, "fname": 0, "period": 1, "si": True, "meta": "dict", "mo": False, "mode": "events",
+            "cwds": ["elsewhere", "elsewhere/x/y", "c0/deep", "c0", "elsewhere", "c0"], "epochs": 3}
+    yield {**base, "tseed": 301, "folder": ["w"]}
+    yield {**base, "tseed": 302, "folder": ["a", "..", "b"], "mode": "fit", "period": 2}
+    yield {**base, "tseed": 303, "folder": ["exists", "sub"], "meta": "other_list"}
+    yield {**base, "tseed": 304, "folder": ["blocked", "x"]}
+    yield {**base, "tseed": 305, "folder": ["w"], "abs": True, "fname": 4}
+    yield {**base, "tseed": 306, "folder": ["..", "up"], "meta": "other_str", "mo": True, "fname": 1}
+
+
+def saver_case(ctx, case):
+    """ModelSaver created in one working directory (relative / absolute folder, `.` and `..` levels, an existing directory, a regular file
+    in the way) and driven - through its public callbacks, or by a real `fit` - after the caller moved elsewhere: WHERE each checkpoint lands and
+    WHETHER the call is refused, against `QV.Store.PSaver` / `saverSaveArg` (driver op c11.saverPath)"""
+    import shutil
+    import tempfile
+
+    from qucumber.callbacks import ModelSaver
+
+    base = os.path.realpath(tempfile.mkdtemp(prefix="qv_saver_"))
+    assert not base.startswith("/repo") and not base.startswith("/verif")
+    old_cwd = os.getcwd()
+    comps = lambda p: [c for c in os.path.realpath(p).split(os.sep) if c]  # noqa: E731
+    cs = dict(case)
+    try:
+        for d in ("c0/deep", "c0/exists", "elsewhere/x/y"):
+            os.makedirs(os.path.join(base, d))
+        open(os.path.join(base, "c0", "blocked"), "w").write("a regular file")
+        torch.manual_seed(int(case["tseed"]))
+        st = so.KINDS["pos"](num_visible=2, num_hidden=1, gpu=False)
+        cwd0 = os.path.join(base, "c0")
+        folder = os.path.join(cwd0, *case["folder"]) if case["abs"] else os.path.join(*case["folder"])
+        fname, tmpl = FILE_NAMES[case["fname"]]
+        md_obj = {"none": None, "dict": {"epoch": 1, "note": "x"}, "callable": (lambda s, e: {"epoch": e}), "other_list": [1, 2], "other_str": "meta",
+                  "other_int": 5}[case["meta"]]
+        for k in ("folder", "abs", "meta", "mode", "mo"):
+            ctx.count(f"saver_{k}:{case[k] if k != 'folder' else '/'.join(case['folder'])}")
+        ctx.count("saver_file_name:" + fname)
+
+        def tree():
+            out = {}
+            for r, ds, fs in os.walk(base):
+                for f in fs:
+                    p = os.path.join(r, f)
+                    out[p] = (os.path.getsize(p), os.stat(p).st_mtime_ns)
+            return out
+
+        def listing():
+            dirs, files = [], []
+            for r, ds, fs in os.walk(base):
+                dirs.append(comps(r))
+                files += [comps(os.path.join(r, f)) for f in fs]
+            c = comps(base)
+            return [c[:i] for i in range(1, len(c))] + dirs, files
+
+        dirs0, files0 = listing()
+        os.chdir(cwd0)
+        init_err = None
+        try:
+            saver = ModelSaver(case["period"], folder, fname, save_initial=case["si"], metadata=md_obj, metadata_only=case["mo"])
+        except Exception as e:  # noqa: BLE001
+            init_err = type(e).__name__
+        events = [("initial", case["cwds"][0])] + [(e, case["cwds"][e % len(case["cwds"])]) for e in range(1, case["epochs"] + 1)]
+        impl = []
+        if init_err is None:
+            if case["mode"] == "fit":
+                # a real training run started after the caller moved to another directory (every event happens there)
+                events = [(e, case["cwds"][0]) for e, _ in events]
+                os.chdir(os.path.join(base, case["cwds"][0]))
+                before = tree()
+                err = None
+                try:
+                    data = torch.randint(0, 2, (6, 2)).to(torch.double)
+                    st.fit(data, epochs=case["epochs"], pos_batch_size=3, callbacks=[saver])
+                except Exception as e:  # noqa: BLE001
+                    err = type(e).__name__
+                after = tree()
+                wrote = sorted(comps(p) for p in after if before.get(p) != after[p])
+                impl = {"refused": err is not None, "wrote": wrote if err is None else None}
+            else:
+                for e, cwd in events:
+                    os.chdir(os.path.join(base, cwd))
+                    before = tree()
+                    err = None
+                    try:
+                        if e == "initial":
+                            saver.on_train_start(st)
+                        else:
+                            saver.on_epoch_end(st, e)
+                    except Exception as ex:  # noqa: BLE001
+                        err = type(ex).__name__
+                    after = tree()
+                    wrote = sorted(comps(p) for p in after if before.get(p) != after[p])
+                    impl.append({"refused": err is not None, "wrote": wrote if err is None else None})
+                    if err is None and wrote and not case["mo"]:
+                        back = so.KINDS["pos"].autoload(os.sep + os.sep.join(wrote[0]), gpu=False)
+                        ctx.oracle("the checkpoint ModelSaver wrote reproduces the state (autoload)",
+                                   so.deep_equal(so.snapshot_state(back)["nets"], so.snapshot_state(st)["nets"]), cs, sig="saver/checkpoint-roundtrip",
+                                   theorem="C11_roundtrip_autoload")
+                    with torch.no_grad():   # the state changes between the periods, as in training
+                        st.rbm_am.weights.add_(0.125)
+        os.chdir(old_cwd)
+        # the property itself, on the implementation: the checkpoints of a saver created with a RELATIVE folder live under the directory
+        # that folder denoted WHEN THE SAVER WAS CREATED, wherever the caller is when they are written
+        if init_err is None:
+            want_dir = comps(os.path.join(cwd0, *case["folder"]))
+            all_wrote = (impl["wrote"] or []) if isinstance(impl, dict) else [p for ev in impl for p in (ev["wrote"] or [])]
+            ctx.oracle("every file ModelSaver writes lies in <folder_path as it resolved when the saver was created>", all(p[:-1] == want_dir for p in all_wrote), cs,
+                       detail={"folder": want_dir, "wrote": all_wrote[:6]}, sig="saver/folder-at-construction", theorem="C11_saver_path")
+        if ctx.driver is not None:
+            m = ctx.driver.call("c11.saverPath", cwd0=comps(cwd0), folder={"abs": bool(case["abs"]), "comps": (comps(cwd0) if case["abs"] else []) + list(case["folder"])},
+                                fileName=tmpl, period=case["period"], saveInitial=bool(case["si"]), dirs=dirs0, files=files0,
+                                metaForm={"none": "none", "dict": "dict", "callable": "callable"}.get(case["meta"], "other"), metadataOnly=bool(case["mo"]),
+                                queries=[{"cwd": comps(os.path.join(base, cwd)), "epoch": e} for e, cwd in events])
+            thm = "C11_saver_path"
+            # what an undocumented `metadata` object or a file name that is no one-blank format string does is not constrained by the property
+            # text (the present code refuses at the first write): compared with the model at aux level only
+            lvl = "aux" if case["meta"].startswith("other") or case["fname"] >= 3 else "property"
+            ctx.point("saver.init.refused", "property", init_err is not None, m["initError"] is not None, cs, exact=True, sig="saver/init-refused", theorem=thm)
+            if init_err is None and m["initError"] is None:
+                mod = []
+                for tg in m["targets"]:
+                    if tg is None:
+                        mod.append({"refused": False, "wrote": []})
+                    elif "error" in tg or m["writeRefused"]:
+                        mod.append({"refused": True, "wrote": None})
+                    else:
+                        mod.append({"refused": False, "wrote": [tg["dir"] + [tg["name"]]]})
+                if isinstance(impl, dict):   # a whole fit: refused iff some event is; otherwise the set of files of all events
+                    ref = any(x["refused"] for x in mod)
+                    mod = {"refused": ref, "wrote": None if ref else sorted({tuple(p) for x in mod for p in x["wrote"]})}
+                    mod["wrote"] = None if ref else [list(p) for p in mod["wrote"]]
+                ctx.point("saver.files", lvl, so.tuplify(impl), so.tuplify(mod), cs, exact=True, sig="saver/files", theorem=thm)
+        ctx.case({k: v for k, v in case.items()}, nontrivial=init_err is None and not case["abs"], sample={"saver": {k: case[k] for k in ("folder", "abs", "meta", "mode")}})
+    finally:
+        os.chdir(old_cwd)
+        shutil.rmtree(base, ignore_errors=True)
+
+
+def ext_cases(ctx, n_stream, n_saver):
+    yield from fixed_stream_cases()
+    for _ in range(n_stream):
+        yield {"kind": "stream", "tseed": ctx.rng.randrange(1, 2 ** 31), "plan": gen_stream_case(ctx.rng)}
+    yield from fixed_saver_cases()
+    for _ in range(n_saver):
+        yield gen_saver_case(ctx.rng)
+
+
+def ext_one(ctx, case):
+    (stream_case if case["kind"] == "stream" else saver_case)(ctx, case)
+
+
 def run(ctx):
     ctx.rule = RULE
     for case in fixed_cases():
@@ -516,6 +939,8 @@ def run(ctx):
         one_case(ctx, {**case, "rel": True})
     for case in gen_cases(ctx, ctx.tier == "thorough"):
         one_case(ctx, case)
+    for case in ext_cases(ctx, *((60, 120) if ctx.tier == "thorough" else (14, 30))):
+        ext_one(ctx, case)
 
 
 def env_run(ctx, env_name):
@@ -528,6 +953,8 @@ def env_run(ctx, env_name):
         one_case(ctx, {**case, "rel": case["tseed"] % 2 == 1})
     for case in gen_cases(ctx, False, ncases=12):
         one_case(ctx, case)
+    for case in ext_cases(ctx, 2, 4):
+        ext_one(ctx, case)
 
 
 def search(ctx):
@@ -538,9 +965,13 @@ def search(ctx):
             one_case(ctx, {**case, "rel": True})
         for case in gen_cases(ctx, True, ncases=250):
             one_case(ctx, case)
+        for case in ext_cases(ctx, 40, 80):
+            ext_one(ctx, case)
     finally:
         ctx.driver = drv
 
 
 def replay(ctx, case):
+    if case.get("kind") in ("stream", "saverpath"):
+        return ext_one(ctx, {k: v for k, v in case.items() if k not in ("op", "step")})
     one_case(ctx, {"plan": case["plan"], "tseed": case["tseed"], "rel": bool(case.get("rel"))})
